@@ -38,7 +38,15 @@ class ContractMixin:
                     if d is not None:
                         defaults[name] = (d, k.module)
                 return pos, (a.vararg.arg if a.vararg else None), kwonly, defaults, (a.kwarg.arg if a.kwarg else None)
-        return list(c.params), None, [], {}, None
+        names = list(c.params)
+        var = [n for n in names if n.startswith("*")]
+        if var:
+            # declared-only contract with a variadic parameter: c.param("*values", "tuple")
+            v = var[0][1:]
+            if v not in c.params:
+                c.params[v] = c.params[var[0]]
+            return [n for n in names if not n.startswith("*") and n != v], v, [], {}, None
+        return names, None, [], {}, None
 
     def bind_call(self, c, args, kwargs, st, label):
         pos, vararg, kwonly, defaults, kwarg = self.callee_signature(c)
